@@ -37,6 +37,7 @@ type regModel struct {
 	digestHdr  bool
 	ranges     bool
 	corrupt    int // which single-field corruption to apply to blob GET responses (0 = none)
+	locQuery   bool // the upload Location carries session state in a query string the PUT must keep
 	refAPI     bool // Referrers API supported
 	yield      bool // yield inside every exchange so that cooperative schedules interleave exchanges
 	failKind   int    // one injected failure: 1 = index GET by tag (500), 2 = index PUT by tag (403), 3 = DELETE of an index manifest (405)
@@ -172,7 +173,11 @@ func (m *regModel) upload(req *http.Request, session string) (*http.Response, er
 		id := "u" + strconv.Itoa(m.nUploads)
 		m.uploads[id] = true
 		resp := m.status(req, http.StatusAccepted, nil)
-		resp.Header.Set("Location", "/v2/"+m.repo+"/blobs/uploads/"+id)
+		loc := "/v2/" + m.repo + "/blobs/uploads/" + id
+		if m.locQuery {
+			loc += "?_state=s" + id
+		}
+		resp.Header.Set("Location", loc)
 		return resp, nil
 	case http.MethodPut:
 		if !m.uploads[session] {
@@ -181,6 +186,14 @@ func (m *regModel) upload(req *http.Request, session string) (*http.Response, er
 		dg := req.URL.Query().Get("digest")
 		if !validDigest(dg) {
 			return m.reject(req, "PUT without a valid digest parameter")
+		}
+		if m.locQuery && req.URL.Query().Get("_state") != "s"+session {
+			return m.reject(req, "PUT does not use the upload Location as given (its query string is missing)")
+		}
+		for k := range req.URL.Query() {
+			if k != "digest" && k != "_state" {
+				return m.reject(req, "PUT carries a query parameter the Location did not have: "+k)
+			}
 		}
 		if req.Header.Get("Content-Type") != "application/octet-stream" {
 			return m.reject(req, "PUT without Content-Type application/octet-stream")
@@ -377,6 +390,7 @@ func VerifC13History() {
 	reg := newRegModel()
 	reg.digestHdr = verifrt.Bool()
 	reg.ranges = verifrt.Bool()
+	reg.locQuery = verifrt.Bool()
 	repo := &Repository{Reference: registry.Reference{Registry: "r.io", Repository: "a/b"}, Client: reg}
 	uni := c13Universe()
 	tags := []string{"v1", "v2"}
